@@ -522,11 +522,135 @@ def run_churn(cycles, live, same_path):
     return viol
 
 
+def run_lazy(n):
+    """n devices beneath /svc/dev, each with a read-only property (an
+    application subclass of DBusProperty with a computed value) naming a
+    session object that is created and exported, beneath /svc/sessions, the
+    first time the property is read.  GetManagedObjects on /svc/dev reads
+    the properties - and reports exactly the devices; afterwards the tree is
+    what the export calls imply"""
+    from txdbus import objects as O, interface as I
+    viol = []
+    cw = fakes.ClientWorld()
+    serial = [7000]
+
+    def call(path, iface, member):
+        serial[0] += 1
+        cw.conn.dataReceived(R.encode_message(
+            R.METHOD_CALL, serial[0],
+            {'path': path, 'member': member, 'sender': CALLER,
+             'destination': ':1.7', 'interface': iface}))
+        msgs = cw.sent()
+        return [m for m in msgs
+                if m['fields'].get('reply_serial') == serial[0]], \
+            [m for m in msgs if m['type'] == 4]
+    try:
+        cw.sent()
+
+        class Computed(O.DBusProperty):
+            def __init__(self, name, fn, interface=None):
+                O.DBusProperty.__init__(self, name, interface)
+                self.fn = fn
+
+            def __get__(self, instance, owner):
+                if instance is None:
+                    return self
+                return self.fn(instance)
+        sess_if = I.DBusInterface('org.ex.Session', I.Method('Close', '', ''),
+                                  noRegister=True)
+        dev_if = I.DBusInterface('org.ex.Device', I.Method('Poke', '', 's'),
+                                 I.Property('Session', 'o'), noRegister=True)
+
+        class Session(O.DBusObject):
+            dbusInterfaces = [sess_if]
+
+        class Device(O.DBusObject):
+            dbusInterfaces = [dev_if]
+
+            def __init__(self, k):
+                O.DBusObject.__init__(self, '/svc/dev/d%d' % k)
+                self.k = k
+                self.session = None
+
+            def _session(self):
+                if self.session is None:
+                    self.session = Session('/svc/sessions/s%d' % self.k)
+                    cw.conn.exportObject(self.session)
+                return self.session.getObjectPath()
+            Session = Computed('Session', _session, 'org.ex.Device')
+        for path in ('/svc', '/svc/dev', '/svc/sessions'):
+            cw.conn.exportObject(O.DBusObject(path))
+        devs = [Device(k) for k in range(n)]
+        for d in devs:
+            cw.conn.exportObject(d)
+        added = [m['body'][0] for m in cw.sent() if m['type'] == 4 and
+                 m['fields'].get('member') == 'InterfacesAdded']
+        # exporting a device reads its properties for the announcement, so
+        # the sessions came into being there; the application closes them
+        # all again (unexport, forget): the next read of the property - the
+        # query below - brings each back
+        for d in devs:
+            if d.session is not None:
+                cw.conn.unexportObject(d.session.getObjectPath())
+                d.session = None
+        cw.sent()
+        mine, sigs = call('/svc/dev', 'org.freedesktop.DBus.ObjectManager',
+                          'GetManagedObjects')
+        want = {'/svc/dev/d%d' % k: {'Session': '/svc/sessions/s%d' % k}
+                for k in range(n)}
+        got = None
+        if len(mine) == 1 and mine[0]['type'] == 2:
+            got = {p_: v.get('org.ex.Device')
+                   for p_, v in mine[0]['body_plain'][0].items()}
+        if got != want:
+            viol.append(('lazy/managed',
+                         'GetManagedObjects(/svc/dev) with %d devices whose '
+                         'Session property exports a session object when '
+                         'first read: answered %r, expected %r'
+                         % (n, got if got is not None else
+                            [_b(m) for m in mine], want)))
+        mine, sigs = call('/svc', 'org.freedesktop.DBus.ObjectManager',
+                          'GetManagedObjects')
+        want_paths = {'/svc/dev', '/svc/sessions'} | set(want) | \
+            {'/svc/sessions/s%d' % k for k in range(n)}
+        got_paths = set(mine[0]['body_plain'][0]) if len(mine) == 1 and \
+            mine[0]['type'] == 2 else None
+        if got_paths != want_paths:
+            viol.append(('lazy/tree',
+                         'afterwards GetManagedObjects(/svc) lists %r, '
+                         'exported are %r' % (got_paths and sorted(got_paths),
+                                              sorted(want_paths))))
+        for k in range(n):
+            mine, sigs = call('/svc/sessions/s%d' % k,
+                              'org.freedesktop.DBus.Introspectable',
+                              'Introspect')
+            if len(mine) != 1 or mine[0]['type'] != 2:
+                viol.append(('lazy/session-unreachable',
+                             'the session object of device %d does not '
+                             'answer Introspect: %r' % (k, [_b(m)
+                                                            for m in mine])))
+                break
+    except Exception as e:
+        viol.append(('lazy/raises-%s' % type(e).__name__, '%r' % (e,)))
+    finally:
+        cw.close()
+    return viol
+
+
 CHURN = [(60, 0, True), (200, 0, False), (300, 7, False), (400, 40, False)]
 
 
 def _task_churn(args):
     res = core.Result()
+    if args[0] == 'lazy':
+        res.count('states')
+        res.count('transitions', args[1] + 3)
+        res.count('evaluations', 3)
+        res.count('nontrivial')
+        for t, w in run_lazy(args[1]):
+            res.violation('%s/%s' % (PROP, t), w, {'part': 'lazy',
+                                                   'n': args[1]}, size=1)
+        return res
     res.count('states', args[0])
     res.count('transitions', args[0] * 4)
     res.count('evaluations', args[0] * 3)
@@ -554,7 +678,9 @@ def run(ctx):
         'InterfacesAdded / InterfacesRemoved for that path. A second pass '
         'adds the event "export another object at an occupied path", a '
         'third exports the same instance again after it was unexported; '
-        'one pass uses container-like objects whose truth value is False. '
+        'one pass uses container-like objects whose truth value is False; '
+        '1 / 2 / 5 devices whose computed property exports a further object '
+        'when GetManagedObjects first reads it. '
         'Long-lived connection: 60..400 cycles of export / query / unexport '
         'of short-lived objects of two classes (different interfaces and '
         'properties) beneath a permanent parent, 0, 7 or 40 live at a time'
@@ -593,11 +719,13 @@ def run(ctx):
                     {'dedup': False, 'reexport': tuple(range(7))},
                     max_depth=3 if ctx.quick else 5,
                     label='all histories, no deduplication')
-    ctx.map(_task_churn, CHURN)
+    ctx.map(_task_churn, CHURN + [('lazy', 1), ('lazy', 2), ('lazy', 5)])
     ctx.bounds = {'paths': len(UNIVERSE)}
 
 
 def replay(data):
+    if data.get('part') == 'lazy':
+        return [('%s/%s' % (PROP, t), w) for t, w in run_lazy(data['n'])]
     if data.get('part') == 'churn':
         return [('%s/%s' % (PROP, t), w) for t, w in
                 run_churn(*data['args'])]
